@@ -35,7 +35,7 @@ BOUNDS = {
     "quick": "coding lengths {12,15}, introns {1,3}, <=3 exons, all origin placements, all ranges; entry points: feature, prepeptide, tta, domain, motif",
     "thorough": "coding lengths {12,15,18,21}, introns {1,2,3}, <=3 exons (length 21: <=2 exons)",
 }
-REQUIRED_BUCKETS = {t: ["gene:multi-exon", "gene:origin-in-exon", "gene:origin-on-border", "gene:origin-in-intron", "gene:reverse",
+REQUIRED_BUCKETS = {t: ["gene:codon-start", "gene:multi-exon", "gene:origin-in-exon", "gene:origin-on-border", "gene:origin-in-intron", "gene:reverse",
                         "range:spans-exon-border", "via:prepeptide", "via:tta", "via:domain", "via:motif"] for t in ("quick", "thorough")}
 L = 60
 SEQ = None
@@ -96,16 +96,62 @@ def gene_locations(total, max_exons, introns):
                         yield loc, circ, tag
 
 
+N_SPLIT = 4
+
+
 def shards(tier):
     if tier == "quick":
         plans = [(12, 3, (1, 3)), (15, 3, (1, 3))]
     else:
-        plans = [(12, 3, (1, 2, 3)), (15, 3, (1, 2, 3)), (18, 3, (1, 2, 3)), (21, 2, (1, 3))]
+        plans = [(12, 4, (1, 2, 3, 4)), (15, 4, (1, 2, 3)), (18, 3, (1, 2, 3)), (21, 3, (1, 3)), (24, 2, (1, 3))]
     out = []
     for total, max_exons, introns in plans:
         for strand in (1, -1):
-            out.append([total, max_exons, list(introns), strand])
+            for part in range(N_SPLIT):
+                out.append([total, max_exons, list(introns), strand, part])
     return out
+
+
+def load_with_codon_start(loc, circ, codon_start, seq):
+    """the gene as the pipeline receives it: a GenBank CDS with a codon_start qualifier, through the real loader"""
+    from Bio.SeqFeature import SeqFeature  # pylint: disable=import-outside-toplevel
+    rec = W.make_record(L, circ, seq)
+    bio = SeqFeature(loc, type="CDS", qualifiers={"locus_tag": ["gene"], "codon_start": [str(codon_start)],
+                                                  "translation": ["M" * ((len(loc) - codon_start + 1) // 3)]})
+    return CDSFeature.from_biopython(bio, record=rec)
+
+
+def check_codon_start(loc, circ, codon_start, seq, res):
+    """a gene with a frame offset: the loader moves the 5' end by codon_start - 1 bases (also when the 5' exon is the one before
+    the origin), writes the original location back out, and annotations are placed relative to the moved location"""
+    T = R.transcript(loc)
+    case = {"loc": enc(loc), "circ": circ, "via": "codon_start", "s": codon_start, "e": 0}
+    first_exon = loc.parts[0]
+    if len(first_exon) < codon_start:
+        return      # a 5' exon that the frame offset would empty: degenerate input, its rejection is not judged
+    res.evals += 1
+    res.buckets["gene:codon-start"] += 1
+    try:
+        gene = load_with_codon_start(loc, circ, codon_start, seq)
+        out = gene.to_biopython()[0]
+    except Exception as err:  # pylint: disable=broad-except
+        res.fail(case, "codon-start-load-raised", f"{type(err).__name__}: {str(err)[:120]}")
+        return
+    if R.transcript(gene.location) != T[codon_start - 1:]:
+        res.fail(case, "codon-start-adjusted-location", f"{gene.location} from {loc}")
+        return
+    if enc(out.location) != enc(loc) or out.qualifiers.get("codon_start") != [str(codon_start)]:
+        res.fail(case, "codon-start-not-restored-on-output", f"{out.location} codon_start={out.qualifiers.get('codon_start')} from {loc}")
+    residues = len(gene.location) // 3
+    for s in range(residues):
+        for e in range(s + 1, residues + 1):
+            for via in ("feature", "domain" if (s + e) % 2 == 0 else "motif"):
+                res.evals += 1
+                res.nontrivial += 1
+                fails = check_range(gene.location, circ, s, e, via, gene)
+                res.outcomes[("codon_start", via, tuple(sorted(c for c, _ in fails)))] += 1
+                for clause, detail in fails:
+                    res.fail({"loc": enc(loc), "circ": circ, "via": via, "s": s, "e": e, "codon_start": codon_start}, clause, detail)
 
 
 def expected(loc, s, e):
@@ -178,11 +224,11 @@ def check_range(loc, circ, s, e, via, gene=None, rec=None):
 
 
 def run_shard(shard):
-    total, max_exons, introns, strand_only = shard
+    total, max_exons, introns, strand_only, split = shard
     res = Result()
     seq = _sequence()
-    for loc, circ, tag in gene_locations(total, max_exons, tuple(introns)):
-        if loc.strand != strand_only:
+    for number, (loc, circ, tag) in enumerate(gene_locations(total, max_exons, tuple(introns))):
+        if loc.strand != strand_only or number % N_SPLIT != split:
             continue
         multi = len(loc.parts) > 1
         bridging = circ and (0 in R.bases(loc) and L - 1 in R.bases(loc))
@@ -223,6 +269,10 @@ def run_shard(shard):
                         for clause, detail in fails:
                             res.fail(case, clause, detail)
                         res.sample(case)
+        # frame offsets: every structure with codon_start 2 and 3 (genes too short to lose two bases are skipped)
+        if total >= 9 and (total <= 15 or number % 3 == 0):
+            for codon_start in (2, 3):
+                check_codon_start(loc, circ, codon_start, seq, res)
         if multi:
             res.buckets["gene:multi-exon"] += 1
         if tag.startswith("in-exon"):
@@ -243,4 +293,8 @@ def _comp(base):
 def replay(case):
     if case["via"] == "extract":
         return []
+    if case["via"] == "codon_start" or case.get("codon_start"):
+        res = Result()
+        check_codon_start(dec(case["loc"]), case["circ"], case.get("codon_start") or case["s"], _sequence(), res)
+        return [(clause, detail) for _, clause, detail in res.failures]
     return check_range(dec(case["loc"]), case["circ"], case["s"], case["e"], case["via"])
